@@ -195,7 +195,7 @@ class DualQuaternion:
             real = left.real * right.real
             dual = left.real * right.dual + left.dual * right.real
 
-            if isinstance(left, UnitDualQuaternion) and isinstance(left, UnitDualQuaternion):
+            if isinstance(left, UnitDualQuaternion) and isinstance(right, UnitDualQuaternion):
                 return UnitDualQuaternion(real, dual)
             else:
                 return DualQuaternion(real, dual)
